@@ -22,13 +22,14 @@ CLAIMED = {
    ref="DESIGN.md section 0.5, C01"),
  "C02": dict(
    cat="model_checking", tech="enum-level symbolic execution of rustc MIR + SMT (z3): the checker's and the lowering pass's rule bodies for `name = value` against one documented rule; accepted programs generated natively",
-   text="Solver-based, the FIRST HALF of the property - code generation does not refuse what the checker accepted - for two mechanisms (the assignment rule; totality of statement lowering): TypeChecker::check_assignment and the Assignment arm "
+   text="Solver-based, the FIRST HALF of the property - code generation does not refuse what the checker accepted - for three mechanisms (the assignment rule; totality of statement lowering; numeric result types of the checker): TypeChecker::check_assignment and the Assignment arm "
         "of AstLowering are executed symbolically (scope chains of 0..=2 scopes, every binding kind, symbol-table lookups as arbitrary answers) and each is decided against the "
         "one documented rule (search the whole scope chain; immutable -> error; mutable -> re-assignment; unbound -> new binding). If both follow it, every assignment the checker "
         "accepts is one lowering accepts; where one deviates, the programs of the deviating class are type-checked and generated through the public API - accepted by `incan "
         "--check` but refused by code generation is the violation. X-lower_total: every variant of ast::Statement has a lowering path that returns Ok when the lowering of its "
         "parts succeeds (each arm of the statement lowering executed with sub-lowerings and lookups as arbitrary answers) - a kind refused on every path is replayed as an accepted "
-        "program that code generation cannot build.",
+        "program that code generation cannot build. X-check_binary / X-compound_assign (shared with C07): the static type the checker gives arithmetic and compound assignment is "
+        "the documented one, i.e. the type the emitted Rust expression has - an accepted `n /= 2` on an int would be a rustc type error in the generated project.",
    note="Kernel-only: rustc compiling the generated project (the larger half of the property), every other construct, and multi-file programs are NOT covered - the oracle for "
         "those is rustc itself, which neither engine encodes. Two known findings (known_findings.json): tuple assignment to non-name targets is accepted and cannot be lowered at all; re-assigning an immutable binding of an enclosing scope from a nested "
         "block is accepted by the checker and fails in code generation; it shares its root cause with the C03 finding and cannot be repaired without editing a pinned snapshot.",
